@@ -264,3 +264,10 @@ func (c *Replay) Choose(step int64, from int, runnable []int, def int) (int, boo
 
 //go:norace
 func (c *Replay) Decisions() []Decision { return c.List }
+
+// SpeedFor derives the speed of the simulated machine (nanoseconds per step) from a run's
+// scheduling seed: from far faster than any timeout in the code under test to one second per
+// statement (a stalled machine, on which every timer fires before the next statement).
+func SpeedFor(seed uint64) int64 {
+	return []int64{1, 1000, 100_000, 10_000_000, 1_000_000_000}[Derive(seed, 0xc10c)%5]
+}
